@@ -6,7 +6,7 @@
 (* and run the used object again.                                                               *)
 (*   Variant = "doc": all invariants must hold.                                                 *)
 (*   Variant = "stale_den" | "relative_index" | "relative_subset" | "no_prior_term" |           *)
-(*   "refill_on_resume": TLC must                                                               *)
+(*   "refill_on_resume" | "silent_rerun": TLC must                                                               *)
 (*   refute an invariant (the runner checks that it does: the model has not lost its bite).     *)
 EXTENDS OSSPS, TLC
 CONSTANTS Variant, MaxLives, Rich
@@ -109,7 +109,14 @@ Again ==
   /\ o' = ObjSetUp(o, 1, K(c), Variant) /\ lam' = c.init /\ phase' = "again" /\ lives' = lives + 1 /\ lastStep' = << >>
   /\ UNCHANGED << c, hist >>
 
-Next == SetUpFresh \/ SubIter \/ Crash \/ Again \/ \E j \in 1..6 : \E same \in BOOLEAN : Resume(j, same)
+(* reconstruct once more WITHOUT set_up: documented as illegal - an error, nothing runs *)
+RerunWithoutSetUp ==
+  /\ phase = "done" /\ lives < MaxLives
+  /\ o' = ObjRerunWithoutSetUp(o, Variant) /\ lives' = lives + 1 /\ lastStep' = << >>
+  /\ IF RerunReportsError(Variant) THEN phase' = "error" /\ lam' = lam ELSE phase' = "again" /\ lam' = c.init
+  /\ UNCHANGED << c, hist >>
+
+Next == RerunWithoutSetUp \/ SetUpFresh \/ SubIter \/ Crash \/ Again \/ \E j \in 1..6 : \E same \in BOOLEAN : Resume(j, same)
 Spec == Init /\ [][Next]_vars
 
 (* ---- the property *)
